@@ -229,3 +229,7 @@ Definition same_order (xs ys : list Z) : Prop :=
 
 (* payload bit p (sequential MSB0 numbering) is used by some signal *)
 Definition used (sigs : list signal) (p : Z) : Prop := exists s, In s sigs /\ occupies s p.
+
+(* CanMatrix.set_fd_type over the frames (size, is_fd) of a matrix: the new is_fd flags *)
+Definition set_fd_types (frames : list (Z * bool)) : list bool :=
+  map (fun f => set_fd_type (fst f) (snd f)) frames.
